@@ -14,7 +14,8 @@ func init() {
 		Explanation: "Structural necessary conditions of 'every response reaches the request that caused it': R1 the id returned by the allocator is the one registered, passed to the frame builder and serialised by every builder; R2 nothing is built or written before registration; " +
 			"R3 the receiver routes by the stream field of the header it just read (a header object private to that invocation), looks up and deletes under one critical section, and hands over the framer that read that header; R4 abandonment paths (timeout, cancel, connection context) never release the id, only the response path, the receiver on behalf of a departed caller and the nothing-written paths do, and only releaseStream may clear an id; " +
 			"R5 duplicate registration is refused; R7 the calls map is touched only under c.mu; R8 header writer and reader agree on offsets and widths per version class." +
-			" R10 the allocator's bitmap words change only by compare-and-swap, so an id in flight cannot be handed out again (=C08.R2).",
+			" R10 the allocator's bitmap words change only by compare-and-swap, so an id in flight cannot be handed out again (=C08.R2)." +
+			" R11 Conn.Read resumes a partially filled buffer (p[n:], n advanced by each attempt) when it retries a temporary read error.",
 		NotDecided: "that arbitrary server answer orders are tolerated for every interleaving of sender, receiver and closer; that the allocator never hands one id to two callers (C08).",
 		Rules: []*Rule{
 			{ID: "C01.R1", Floor: 12, Doc: "id provenance: GetStream result -> callReq.streamID, addCall, buildFrame argument; every builder passes its streamID parameter unchanged to writeHeader", Run: c01r1},
